@@ -19,6 +19,7 @@ model; the event traces `(thread, op, lock/handle, offset/len, data hash)` and p
 string-equal.
 """
 import _thread
+import ast
 import atexit
 import io
 import os
@@ -69,6 +70,22 @@ THEOREMS = [
     'Nb.C14.no_lock_counterexample',
     'Nb.C14.split_lock_counterexample',
     'Nb.C14.copy_new_lock_counterexample',
+    # phase 3: lock topology of derivation histories
+    'Nb.C14.copyLock_cases',
+    'Nb.C14.edge_same_lock',
+    'Nb.C14.conn_to_lock',
+    'Nb.C14.copy_only_lock_zero',
+    'Nb.C14.path_locks_private',
+    'Nb.C14.same_lock_iff_copy_connected',
+    'Nb.C14.noncopy_takes_new_lock',
+    'Nb.C14.family_reads_correct',
+    'Nb.C14.copy_family_reads_correct',
+    'Nb.C14.setstate_new_lock_counterexample',
+    # phase 3: skeletons regenerated from the source (Generated/C14Src.lean) proved equal to the model
+    'Nb.C14.gen_readSegments_eq',
+    'Nb.C14.gen_readSegments_nolock_eq',
+    'Nb.C14.gen_lock_rules_eq',
+    'Nb.C14.gen_getUnscaled_eq',
 ]
 ASSUMPTIONS = [
     'hand-written small-step Lean model (Model/C14.lean) of the lock/seek/read/opener-slot steps of '
@@ -102,6 +119,326 @@ RULE = ('cases = (scenario in {proxy over open BytesIO handle, reads through it 
 
 
 
+# ------------------------------------------------------------------ source skeletons (regen)
+# A syntactic walk over the AST of the CURRENT nibabel sources that extracts the lock/seek/read skeleton of
+# read_segments, the lock rules of copy()/__setstate__/reshape() and the lock placement in _get_unscaled, and
+# writes them as Lean definitions (Generated/C14Src.lean).  Props/C14 proves them equal to the model
+# (gen_readSegments_eq, gen_lock_rules_eq, gen_getUnscaled_eq), so a change of the lock discipline in the
+# source breaks a PROOF, independently of the schedules the run happens to explore.  Anything the walk does
+# not understand raises SkelError (reported as proof-broken), never a silent default.
+
+class SkelError(Exception):
+    pass
+
+
+def _src(node):
+    return ast.unparse(node)
+
+
+def _is_name(n, name):
+    return isinstance(n, ast.Name) and n.id == name
+
+
+def _is_self_attr(n, attr):
+    return isinstance(n, ast.Attribute) and _is_name(n.value, 'self') and n.attr == attr
+
+
+def _func(module, qual):
+    """FunctionDef node of `qual` ('name' or 'Class.name') in the SOURCE FILE of `module`"""
+    tree = ast.parse(open(module.__file__).read())
+    parts = qual.split('.')
+    body = tree.body
+    node = None
+    for p in parts:
+        node = next((n for n in body if isinstance(n, (ast.FunctionDef, ast.ClassDef)) and n.name == p), None)
+        if node is None:
+            raise SkelError('cannot find %s in %s' % (qual, module.__file__))
+        body = node.body
+    return node
+
+
+# ---------------------------------------------------------------- read_segments
+
+def _mentions(node, names):
+    return any(isinstance(n, ast.Name) and n.id in names for n in ast.walk(node))
+
+
+def _file_calls(node, fobj):
+    """calls `<fobj>.<method>(...)` inside node"""
+    return [n for n in ast.walk(node)
+            if isinstance(n, ast.Call) and isinstance(n.func, ast.Attribute) and _is_name(n.func.value, fobj)]
+
+
+def _arg(call):
+    if len(call.args) != 1 or call.keywords or not isinstance(call.args[0], ast.Name):
+        raise SkelError('unsupported file call ' + _src(call))
+    return call.args[0].id
+
+
+def _events_of_simple(stmt, fobj):
+    calls = _file_calls(stmt, fobj)
+    out = []
+    for c in calls:
+        if c.func.attr == 'seek':
+            out.append('[Action.seek %s]' % _arg(c))
+        elif c.func.attr == 'read':
+            out.append('[Action.read %s]' % _arg(c))
+        else:
+            raise SkelError('unsupported file operation ' + _src(c))
+    return out
+
+
+def _seg_test(test, segs):
+    """`len(segments) == K` → Lean Bool"""
+    if (isinstance(test, ast.Compare) and len(test.ops) == 1 and isinstance(test.ops[0], (ast.Eq, ast.NotEq))
+            and isinstance(test.left, ast.Call) and _is_name(test.left.func, 'len')
+            and len(test.left.args) == 1 and _is_name(test.left.args[0], segs)
+            and isinstance(test.comparators[0], ast.Constant) and isinstance(test.comparators[0].value, int)):
+        op = '==' if isinstance(test.ops[0], ast.Eq) else '!='
+        return '(%s.length %s %d)' % (segs, op, test.comparators[0].value)
+    return None
+
+
+def tr_block(stmts, fobj, lock, segs):
+    """(Lean expression : List Action, terminates)"""
+    if not stmts:
+        return '[]', False
+    st, rest = stmts[0], stmts[1:]
+
+    def cont(e, term):
+        if term:
+            return e, True
+        r, rt = tr_block(rest, fobj, lock, segs)
+        return ('(%s ++ %s)' % (e, r) if e != '[]' else r), rt
+
+    if isinstance(st, (ast.Return, ast.Raise)):
+        if _file_calls(st, fobj):
+            raise SkelError('file operation inside return/raise: ' + _src(st))
+        return '[]', True
+    if isinstance(st, ast.Expr) and isinstance(st.value, ast.Constant):
+        return tr_block(rest, fobj, lock, segs)           # docstring
+    if isinstance(st, ast.If):
+        # `if lock is None: lock = _NullLock()`  — the lock parameter is modelled as `Option Nat`
+        t = st.test
+        if (isinstance(t, ast.Compare) and _is_name(t.left, lock) and len(t.ops) == 1 and isinstance(t.ops[0], ast.Is)
+                and isinstance(t.comparators[0], ast.Constant) and t.comparators[0].value is None
+                and len(st.body) == 1 and isinstance(st.body[0], ast.Assign) and _is_name(st.body[0].targets[0], lock)
+                and isinstance(st.body[0].value, ast.Call) and _is_name(st.body[0].value.func, '_NullLock')
+                and not st.orelse):
+            return tr_block(rest, fobj, lock, segs)
+        c = _seg_test(t, segs)
+        b, bt = tr_block(st.body, fobj, lock, segs)
+        o, ot = tr_block(st.orelse, fobj, lock, segs)
+        if c is None:
+            if b == '[]' and o == '[]' and not _mentions(st, {lock}):
+                # a consistency check without file/lock effects (its branches may raise: error paths are
+                # outside the model)
+                return tr_block(rest, fobj, lock, segs)
+            raise SkelError('unsupported condition guarding file/lock operations: ' + _src(t))
+        r, rt = tr_block(rest, fobj, lock, segs)
+        be = b if bt else ('(%s ++ %s)' % (b, r) if b != '[]' else r)
+        oe = o if ot else ('(%s ++ %s)' % (o, r) if o != '[]' else r)
+        return '(if %s then %s else %s)' % (c, be, oe), (bt or rt) and (ot or rt)
+    if isinstance(st, ast.With):
+        if len(st.items) != 1 or not _is_name(st.items[0].context_expr, lock) or st.items[0].optional_vars:
+            raise SkelError('unsupported with statement: ' + _src(st.items[0]))
+        b, bt = tr_block(st.body, fobj, lock, segs)
+        e = '(lockAcq %s ++ %s ++ lockRel %s)' % (lock, b, lock)
+        return cont(e, bt)
+    if isinstance(st, ast.For):
+        if not (_is_name(st.iter, segs) and isinstance(st.target, ast.Tuple) and len(st.target.elts) == 2
+                and all(isinstance(e, ast.Name) for e in st.target.elts) and not st.orelse):
+            raise SkelError('unsupported loop: ' + _src(st)[:80])
+        b, bt = tr_block(st.body, fobj, lock, segs)
+        if bt:
+            raise SkelError('loop body returns')
+        a, l = (e.id for e in st.target.elts)
+        return cont('(%s.flatMap (fun (%s, %s) => %s))' % (segs, a, l, b), False)
+    if isinstance(st, ast.Assign) and isinstance(st.targets[0], ast.Tuple) and isinstance(st.value, ast.Subscript) \
+            and _is_name(st.value.value, segs):
+        if not (isinstance(st.value.slice, ast.Constant) and st.value.slice.value == 0 and len(st.targets[0].elts) == 2):
+            raise SkelError('unsupported segment access: ' + _src(st))
+        a, l = (e.id for e in st.targets[0].elts)
+        r, rt = tr_block(rest, fobj, lock, segs)
+        return '(match %s.head? with | some (%s, %s) => %s | none => [])' % (segs, a, l, r), rt
+    if isinstance(st, (ast.Assign, ast.Expr, ast.AugAssign, ast.AnnAssign)):
+        if _mentions(st, {lock}) :
+            raise SkelError('unsupported use of the lock: ' + _src(st))
+        ev = _events_of_simple(st, fobj)
+        return cont('(' + ' ++ '.join(ev) + ')' if ev else '[]', False)
+    raise SkelError('unsupported statement: ' + _src(st)[:80])
+
+
+def gen_read_segments(fs_module):
+    f = _func(fs_module, 'read_segments')
+    args = [a.arg for a in f.args.args]
+    if args != ['fileobj', 'segments', 'n_bytes', 'lock']:
+        raise SkelError('read_segments signature changed: %r' % args)
+    e, term = tr_block(f.body, 'fileobj', 'lock', 'segments')
+    return ('/-- lock/seek/read skeleton of `nibabel.fileslice.read_segments(fileobj, segments, n_bytes, lock)` -/\n'
+            'def readSegments (lock : Option Nat) (segments : List (Nat × Nat)) : List Action :=\n  %s\n' % e)
+
+
+# ---------------------------------------------------------------- lock rules of copy / __setstate__ / reshape
+
+def _cond(test):
+    if isinstance(test, ast.Call) and _is_self_attr(test.func, '_has_fh') and not test.args:
+        return 'hasFh'
+    if isinstance(test, ast.UnaryOp) and isinstance(test.op, ast.Not):
+        return '(!%s)' % _cond(test.operand)
+    raise SkelError('unsupported condition in lock rule: ' + _src(test))
+
+
+def _lock_value(v):
+    if _is_self_attr(v, '_lock'):
+        return 'src'
+    if isinstance(v, ast.Call) and _is_name(v.func, 'RLock') and not v.args:
+        return 'fresh'
+    raise SkelError('unsupported lock value: ' + _src(v))
+
+
+def _lock_rule(stmts, cur, newnames):
+    """symbolic value of the NEW proxy's `_lock` after `stmts`"""
+    for st in stmts:
+        if isinstance(st, ast.If):
+            touches = any(isinstance(n, ast.Attribute) and n.attr == '_lock' and isinstance(n.ctx, ast.Store)
+                          for n in ast.walk(st))
+            if not touches:
+                continue
+            a = _lock_rule(st.body, cur, newnames)
+            b = _lock_rule(st.orelse, cur, newnames)
+            cur = '(if %s then %s else %s)' % (_cond(st.test), a, b)
+        elif isinstance(st, ast.Assign):
+            for tg in st.targets:
+                if isinstance(tg, ast.Attribute) and tg.attr == '_lock':
+                    if not (isinstance(tg.value, ast.Name) and tg.value.id in newnames):
+                        raise SkelError('assignment to the lock of another object: ' + _src(st))
+                    cur = _lock_value(st.value)
+        else:
+            if any(isinstance(n, ast.Attribute) and n.attr == '_lock' and isinstance(n.ctx, ast.Store)
+                   for n in ast.walk(st)):
+                raise SkelError('unsupported statement assigning a lock: ' + _src(st)[:80])
+    return cur
+
+
+def gen_lock_rules(ap_module):
+    cp = _func(ap_module, 'ArrayProxy.copy')
+    ss = _func(ap_module, 'ArrayProxy.__setstate__')
+    gs = _func(ap_module, 'ArrayProxy.__getstate__')
+    rs = _func(ap_module, 'ArrayProxy.reshape')
+    init = _func(ap_module, 'ArrayProxy.__init__')
+    # the constructor creates a fresh lock
+    if _lock_rule(init.body, 'none', {'self'}) != 'fresh':
+        raise SkelError('ArrayProxy.__init__ does not create a fresh RLock')
+    # copy(): `new = self.__class__(...)` then the lock rule
+    newn = [st.targets[0].id for st in cp.body if isinstance(st, ast.Assign) and isinstance(st.targets[0], ast.Name)
+            and isinstance(st.value, ast.Call) and _is_self_attr(st.value.func, '__class__')]
+    if len(newn) != 1:
+        raise SkelError('copy(): constructor call not found')
+    copy_e = _lock_rule(cp.body, 'fresh', set(newn))
+    # __setstate__: the pickled state carries no lock (popped by __getstate__) …
+    popped = any(isinstance(n, ast.Call) and isinstance(n.func, ast.Attribute) and n.func.attr == 'pop'
+                 and n.args and isinstance(n.args[0], ast.Constant) and n.args[0].value == '_lock'
+                 for n in ast.walk(gs))
+    ss_e = _lock_rule(ss.body, 'none' if popped else 'src', {'self'})
+    if ss_e == 'none':
+        raise SkelError('__setstate__ leaves the proxy without a lock')
+    # reshape(): returns a newly constructed proxy; no lock assignment → the constructor's fresh lock
+    ret = [st for st in rs.body if isinstance(st, ast.Return)]
+    if not (ret and isinstance(ret[-1].value, ast.Call) and _is_self_attr(ret[-1].value.func, '__class__')):
+        newr = [st.targets[0].id for st in rs.body if isinstance(st, ast.Assign) and isinstance(st.targets[0], ast.Name)
+                and isinstance(st.value, ast.Call) and _is_self_attr(st.value.func, '__class__')]
+        if len(newr) != 1:
+            raise SkelError('reshape(): constructor call not found')
+        rs_e = _lock_rule(rs.body, 'fresh', set(newr))
+    else:
+        rs_e = _lock_rule(rs.body, 'fresh', set())
+    return ('/-- lock of the proxy returned by `ArrayProxy.copy()` -/\n'
+            'def copyLock (hasFh : Bool) (src fresh : Nat) : Nat := %s\n'
+            '/-- lock of a proxy after `ArrayProxy.__setstate__` -/\n'
+            'def setstateLock (src fresh : Nat) : Nat := %s\n'
+            '/-- lock of the proxy returned by `ArrayProxy.reshape()` -/\n'
+            'def reshapeLock (src fresh : Nat) : Nat := %s\n' % (copy_e, ss_e, rs_e)).replace('(src fresh : Nat) : Nat := fresh', '(_src fresh : Nat) : Nat := fresh')
+
+
+# ---------------------------------------------------------------- _get_unscaled / fileslice
+
+def gen_get_unscaled(ap_module, fs_module):
+    f = _func(ap_module, 'ArrayProxy._get_unscaled')
+    stmts = [s for s in f.body if not (isinstance(s, ast.Expr) and isinstance(s.value, ast.Constant))]
+    if not (len(stmts) == 2 and isinstance(stmts[0], ast.If) and isinstance(stmts[1], ast.With)
+            and not stmts[0].orelse and len(stmts[0].body) == 1 and isinstance(stmts[0].body[0], ast.With)):
+        raise SkelError('_get_unscaled has an unexpected shape')
+
+    def with_expr(w, callee, inner):
+        pre, post = [], []
+        for it in w.items:
+            ce = it.context_expr
+            if isinstance(ce, ast.Call) and _is_self_attr(ce.func, '_get_fileobj'):
+                pre.append('getFileobj')
+            elif _is_self_attr(ce, '_lock'):
+                pre.append('[Action.acquire lock]')
+                post.insert(0, '[Action.release lock]')
+            else:
+                raise SkelError('unsupported context manager ' + _src(ce))
+        if not (len(w.body) == 1 and isinstance(w.body[0], ast.Return) and isinstance(w.body[0].value, ast.Call)
+                and _is_name(w.body[0].value.func, callee)):
+            raise SkelError('_get_unscaled: expected `return %s(...)`' % callee)
+        return ' ++ '.join(pre + [inner(w.body[0].value)] + post)
+
+    whole = with_expr(stmts[0].body[0], 'array_from_file', lambda call: 'arrayFromFile')
+
+    def lock_kw(call):
+        kw = [k for k in call.keywords if k.arg == 'lock']
+        if not kw:
+            return 'fileslice none'
+        if _is_self_attr(kw[0].value, '_lock'):
+            return 'fileslice (some lock)'
+        if isinstance(kw[0].value, ast.Constant) and kw[0].value.value is None:
+            return 'fileslice none'
+        raise SkelError('unsupported lock argument ' + _src(kw[0].value))
+    sliced = with_expr(stmts[1], 'fileslice', lock_kw)
+    # fileslice hands its `lock` parameter to read_segments
+    fsl = _func(fs_module, 'fileslice')
+    calls = [n for n in ast.walk(fsl) if isinstance(n, ast.Call) and _is_name(n.func, 'read_segments')]
+    if len(calls) != 1:
+        raise SkelError('fileslice: expected exactly one read_segments call')
+    c = calls[0]
+    la = c.args[3] if len(c.args) > 3 else next((k.value for k in c.keywords if k.arg == 'lock'), None)
+    if la is None or (isinstance(la, ast.Constant) and la.value is None):
+        passed = 'none'
+    elif _is_name(la, 'lock'):
+        passed = 'lock'
+    else:
+        raise SkelError('fileslice: unsupported lock argument ' + _src(la))
+    return ('/-- whole-array branch of `ArrayProxy._get_unscaled` (context managers entered left to right, left in\n'
+            '    reverse; `getFileobj` / `arrayFromFile` = the actions of `_get_fileobj()` / `array_from_file`) -/\n'
+            'def getUnscaledWhole (lock : Nat) (getFileobj arrayFromFile : List Action) : List Action :=\n  %s\n'
+            '/-- sliced branch of `ArrayProxy._get_unscaled`: which lock `fileslice` is given -/\n'
+            'def getUnscaledSliced (lock : Nat) (getFileobj : List Action) (fileslice : Option Nat → List Action) : List Action :=\n  %s\n'
+            '/-- the lock `fileslice(..., lock)` passes on to `read_segments` -/\n'
+            'def filesliceLock (lock : Option Nat) : Option Nat := %s\n' % (whole, sliced, passed))
+
+
+SKEL_HEADER = '''import NibabelModel.Model.C14
+/-! GENERATED by harness/props/c14.py regen() from the nibabel working tree
+    (nibabel/fileslice.py `read_segments`, `fileslice`; nibabel/arrayproxy.py `copy`, `__getstate__`,
+    `__setstate__`, `reshape`, `_get_unscaled`) - do not edit.  The lock/seek/read SKELETON of each function,
+    obtained by a syntactic walk over its AST.  Props/C14 proves these equal to the hand-written model. -/
+namespace Nb.C14.Gen
+open Nb.C14
+/-- `with lock:` entry / exit for an optional lock (`None` → `_NullLock`: nothing happens) -/
+def lockAcq : Option Nat → List Action | some l => [Action.acquire l] | none => []
+def lockRel : Option Nat → List Action | some l => [Action.release l] | none => []
+'''
+
+
+def skel_generate(ap_module, fs_module):
+    return (SKEL_HEADER + gen_read_segments(fs_module) + gen_lock_rules(ap_module)
+            + gen_get_unscaled(ap_module, fs_module) + 'end Nb.C14.Gen\n')
+
+
+
 def regen():
     """constants of the source the model depends on (re-read from the working tree on every run)"""
     import nibabel.fileslice as fs
@@ -112,6 +449,9 @@ def regen():
            'def skipThresh : Nat := %d\n'
            'end Nb.C14.Gen\n' % int(fs.SKIP_THRESH))
     write_if_changed(os.path.join(LEAN, 'NibabelModel', 'Generated', 'C14.lean'), src)
+    import nibabel.arrayproxy as ap
+    # (the generated definitions are not counted as obligations: the theorems about them are in THEOREMS)
+    write_if_changed(os.path.join(LEAN, 'NibabelModel', 'Generated', 'C14Src.lean'), skel_generate(ap, fs))
     return []
 
 
